@@ -135,7 +135,7 @@ func VerifC02Center() {
 	vAssert(vRLe(ca, ma) && vRLe(ma, ca), "centre altitude is exactly (f+1/2)*2^(25-v)")
 	// centre -> ID round trip: follows from this harness (centre within 1e-11 degrees of the exact
 	// middle, altitude exactly (f+1/2)*2^(25-v)) together with C01's kernels (a longitude at least
-	// 2^-12 tile widths from the tile edges maps to its tile; the vertical kernel is exact); the direct
+	// 360*2^-51 degrees from the tile edges maps to its tile; the vertical kernel is exact); the direct
 	// query on the composed code was "unknown" at 120 s for most zooms and is not part of the claim.
 	vReach("end")
 }
